@@ -101,6 +101,17 @@ fn large_strategy(_tier: Tier) -> BoxedStrategy<OneShot> {
     (gen::mode3(), len, gen::content()).prop_map(|(mode, len, content)| OneShot { mode, len, content }).boxed()
 }
 
+/// Inputs beyond 2^31 and 2^32 bytes ("up to what memory allows"): all-zero content, so the
+/// buffer is lazily mapped zero pages and costs no RAM; the spec model needs ~8 s per 2 GiB.
+fn huge_items(tier: Tier) -> Box<dyn Iterator<Item = OneShot>> {
+    let mut lens: Vec<usize> = vec![(1usize << 31) + 1, (1usize << 32) + 1];
+    if tier == Tier::Thorough {
+        lens.extend([(1usize << 31) - 1, 1usize << 31, (1usize << 31) + 1025, 1usize << 32, (1usize << 32) + 1024 * 3 + 7, 3 * (1usize << 31) + 64]);
+    }
+    let modes = [ModeC::Hash, ModeC::Keyed(*gen::TEST_KEY), ModeC::Derive(CtxSpec { kind: 0, len: 30, seed: 5 })];
+    Box::new(lens.into_iter().enumerate().map(move |(i, len)| OneShot { mode: modes[i % 3].clone(), len, content: Content { kind: 1, seed: 0 } }))
+}
+
 fn big_strategy(_tier: Tier) -> BoxedStrategy<OneShot> {
     (gen::mode3(), (16usize << 20)..=(64usize << 20), -2i64..=2, gen::content())
         .prop_map(|(mode, len, d, content)| {
@@ -140,6 +151,16 @@ pub fn subs() -> Vec<Box<dyn DynSub>> {
             strategy: large_strategy,
             classify,
             check,
+            known: None,
+            crumb: false,
+        }),
+        Box::new(EnumSub::<OneShot> {
+            name: "huge",
+            rule: "enumeration: inputs of 2^31+1 and 2^32+1 bytes (quick) plus 2^31-1, 2^31, 2^31+1025, 2^32, 2^32+3079, 3*2^31+64 (thorough), zero content, rotating modes; same oracle (lengths beyond 32-bit arithmetic)",
+            items: huge_items,
+            classify,
+            check,
+            exhaustive: false,
             known: None,
             crumb: false,
         }),
